@@ -113,3 +113,35 @@ func c10ShortSpace(c *fw.Ctx) {
 			}
 		})
 }
+
+// c10AllKeysSpace: every fixed key, whatever its size, signs and verifies one RRset in both tiers (the other
+// spaces leave the 2048- and 4096-bit RSA keys to the thorough tier).
+func c10AllKeysSpace(c *fw.Ctx) {
+	c.Space("all-fixed-keys", fmt.Sprintf("each of the %d fixed keys of /verif/keys (RSA 1024/2048/4096 bits — 4096 is the largest modulus the library takes —, P-256, P-384, Ed25519) × RRsets of {MX, A}: Sign → reference verifier and Verify; reference signer → Verify; one flipped signature bit is rejected; non-trivial: all", len(c10KeyNames)), true,
+		func(emit func(func(*fw.R))) {
+			for ki := range c10KeyNames {
+				for _, tn := range []string{"MX", "A"} {
+					ki, tn := ki, tn
+					emit(func(r *fw.R) {
+						r.Nontrivial()
+						k := c10Keys()[ki]
+						t := c10Types[c10TypeIdx(tn)[0]]
+						sym := c10Symbols(t, c10Owners[0], c10Variants[0])
+						rrset := []dns.RR{sym[1], sym[0]}
+						sig := &dns.RRSIG{KeyTag: k.DNSKEY.KeyTag(), SignerName: "example.", Algorithm: k.DNSKEY.Algorithm, Inception: c10Inception, Expiration: c10Expiration}
+						if err := c10Sign(sig, k.Priv, rrset); err != nil {
+							r.Fail("sign/error", "Sign failed: %v; %s", err, c10Desc(k, sig, rrset))
+							return
+						}
+						c10Judge(r, "all-fixed-keys/library-signed", "signature by Sign", k, k.DNSKEY, sig, rrset)
+						if e, _ := c10RefVerify(k.DNSKEY, sig, rrset); e != nil {
+							r.Fail("sign/reference-rejects", "the reference verifier rejects Sign's output: %v; %s", e, c10Desc(k, sig, rrset))
+						}
+						if e, _ := c10Verify(sig, k.DNSKEY, rrset); e != nil {
+							r.Fail("verify/rejects-own-signature", "Verify rejects Sign's output: %v; %s", e, c10Desc(k, sig, rrset))
+						}
+					})
+				}
+			}
+		})
+}
